@@ -222,14 +222,15 @@ PROPS = {
     "C15": P("proof", [("memvet", 250, 8000)], ["MEM.vet"], special=[special_mem], rule=RULE +
              "; memory: every slice argument carved out of a sentinel-filled backing array in 7 layouts, backing arrays compared before/after",
              trusted=["Go runtime allocator and escape analysis are not modelled: 'fresh' means not aliasing any buffer the model knows"]),
-    "C16": P("other", [], None, special=[special_race],
-             explanation="Lean: footprint model, race freedom and determinism for every interleaving by induction over the schedule, instantiated with "
-                         "facts extracted from the source on every run (no write to a package variable, arguments never rebound, no write through a "
-                         "slice parameter). Run time: the harness built with -race runs 8 goroutines per scenario over every API function with shared "
+    "C16": P("proof", [], None, special=[special_race],
+             explanation="Lean: footprint model; race freedom and solo-run equivalence for every interleaving by induction over the schedule; instantiated for "
+                         "every set of concurrent API calls on owned receivers from the footprint table of the API, which a may-write analysis re-derives from the "
+                         "source on every run (theorem api_writes_only_output: no API function can write through an argument), together with: no write to a package "
+                         "variable, no write through a slice parameter. Run time: the harness built with -race runs 8 goroutines per scenario over every API function with shared "
                          "arguments (DST with spare capacity) and compares every result with the sequential one; a race report is the failing schedule.",
              rule="scenarios x 8 goroutines; distinct = distinct scenarios",
              trusted=["Go memory model and scheduler (modelled by the footprint semantics)", "the race detector only observes executed schedules"]),
-    "C17": P("other", [], None, special=[special_link],
+    "C17": P("proof", [], None, special=[special_link],
              explanation="Lean: linker/registry model (packages linked = import closure; a hash is registered iff its implementing package is linked); "
                          "theorem for every program importing the package, from facts extracted on every run (go list -deps, crypto.<ID>.New() uses). "
                          "Run time: a plain main importing only the package is built in a scratch module and run; its three outputs are compared with "
